@@ -30,6 +30,43 @@ fn parse_partial(text: &str) -> BddPartialValuation {
     BddPartialValuation::from_values(&vals)
 }
 
+/// A clause built by a HISTORY of operations on an empty `BddPartialValuation`, so that the backing vector
+/// has exactly the shape the history produces (trailing unset cells, cells beyond num_vars …):
+/// `sK=b` set_value(xK, b), `uK` unset_value(xK), `iK=b` / `iK=-` index assignment `clause[xK] = Some(b) / None`;
+/// operations are separated by `.`, the empty history is `~`.
+fn build_history(text: &str) -> BddPartialValuation {
+    let mut c = BddPartialValuation::empty();
+    if text == "~" { return c; }
+    for op in text.split('.') {
+        let (kind, rest) = op.split_at(1);
+        let (k, val) = match rest.split_once('=') { Some((k, v)) => (k, Some(v)), None => (rest, None) };
+        let v = var(k.parse::<usize>().unwrap());
+        match (kind, val) {
+            ("s", Some(b)) => c.set_value(v, b == "1"),
+            ("u", None) => c.unset_value(v),
+            ("i", Some("-")) => c[v] = None,
+            ("i", Some(b)) => c[v] = Some(b == "1"),
+            _ => panic!("bad history op {}", op),
+        }
+    }
+    c
+}
+/// every clause (as returned, not rebuilt) fed to `ValuationsOfClauseIterator::new(clause, n)`:
+/// `<count>/<clause>><valuations>/<clause>><valuations>…`
+fn fmt_clause_vals(clauses: &Option<Vec<BddPartialValuation>>, n: usize) -> String {
+    match clauses {
+        None => s("panic"),
+        Some(cs) => {
+            let mut out = format!("{}", cs.len());
+            for c in cs {
+                let vals = catch(|| ValuationsOfClauseIterator::new(c.clone(), n as u16).collect::<Vec<_>>());
+                out.push_str(&format!("/{}>{}", fmt_partial(c, n), fmt_vals(&vals)));
+            }
+            out
+        }
+    }
+}
+
 /// Executes one case from its textual inputs and writes the observation.
 pub fn run(key: &str, a: &[String], out: &mut Out) {
     out.begin(key, a);
@@ -78,6 +115,22 @@ pub fn run(key: &str, a: &[String], out: &mut Out) {
             let clause = parse_partial(&a[0]);
             let res = catch(|| ValuationsOfClauseIterator::new(clause.clone(), n).collect::<Vec<_>>());
             out.case(key, a, &[fmt_vals(&res)]);
+        }
+        "C08.hvals" => {
+            // history num_vars => ValuationsOfClauseIterator::new(clause built by the history, num_vars)
+            //                     and the clause as seen through get_value over max(num_vars, 6) positions
+            let n: u16 = a[1].parse().unwrap();
+            let clause = build_history(&a[0]);
+            let res = catch(|| ValuationsOfClauseIterator::new(clause.clone(), n).collect::<Vec<_>>());
+            out.case(key, a, &[fmt_vals(&res), fmt_partial(&clause, (n as usize).max(6))]);
+        }
+        "C08.dnfvals" => {
+            // B => every clause of to_dnf() / of sat_clauses(), as returned, fed to ValuationsOfClauseIterator::new
+            let b = Bdd::from_string(&a[0]);
+            let n = b.num_vars() as usize;
+            let dnf = catch(|| b.to_dnf());
+            let it = catch(|| b.sat_clauses().collect::<Vec<_>>());
+            out.case(key, a, &[fmt_clause_vals(&dnf, n), fmt_clause_vals(&it, n)]);
         }
         "C08.uvals" => {
             // num_vars => new_unconstrained(n) BddValuationIterator::new(n) empty()
@@ -134,6 +187,7 @@ fn gap_bdd(rng: &mut Rng64) -> Vec<(usize, usize, usize)> {
 fn all_kinds(b: &str, rng: &mut Rng64, out: &mut Out) {
     run("C08.vals", &[s(b)], out);
     run("C08.clauses", &[s(b)], out);
+    run("C08.dnfvals", &[s(b)], out);
     let k = *rng.pick(&[0usize, 1, 2, 3, 5, 100000]);
     run("C08.owned", &[s(b), k.to_string()], out);
 }
@@ -146,6 +200,7 @@ pub fn gen(tier: Tier, rng: &mut Rng64, out: &mut Out) {
             for k in [0usize, 1, 100000] { run("C08.owned", &[b.clone(), k.to_string()], out); }
             run("C08.vals", &[b.clone()], out);
             run("C08.clauses", &[b.clone()], out);
+            run("C08.dnfvals", &[b.clone()], out);
         }
     }
     // --- clause iterators: all clauses over m <= 4 positions, num_vars 0..=4 (also clauses that are
@@ -168,6 +223,31 @@ pub fn gen(tier: Tier, rng: &mut Rng64, out: &mut Out) {
         let mut t: String = text.into_iter().collect();
         t.push_str(extra);
         run("C08.cvals", &[t, n.to_string()], out);
+    }
+    // --- clause iterators on clauses built by a history of set / unset / index-assignment operations
+    //     (the backing vector gets trailing unset cells, also beyond num_vars): all histories of length
+    //     <= 2 over x0..x4 (thorough: length 3 over the set/unset operations), num_vars 0..=4
+    let mut ops: Vec<String> = vec![];
+    for k in 0..=4usize {
+        for o in [format!("s{}=0", k), format!("s{}=1", k), format!("u{}", k), format!("i{}=0", k), format!("i{}=1", k), format!("i{}=-", k)] { ops.push(o); }
+    }
+    let su: Vec<String> = ops.iter().filter(|o| !o.starts_with('i')).cloned().collect();
+    let mut histories: Vec<String> = vec![s("~")];
+    for o in &ops { histories.push(o.clone()); }
+    for o1 in &ops { for o2 in &ops { histories.push(format!("{}.{}", o1, o2)); } }
+    if thorough {
+        for o1 in &su { for o2 in &su { for o3 in &su { histories.push(format!("{}.{}.{}", o1, o2, o3)); } } }
+    }
+    for h in &histories { for n in 0..=4usize { run("C08.hvals", &[h.clone(), n.to_string()], out); } }
+    for _ in 0..(if thorough { 20000 } else { 1500 }) {
+        // longer random histories over up to 8 variables: mostly a fixed prefix, then unsets of the last variables
+        let n = rng.below(9) as usize;
+        let len = 1 + rng.below(7) as usize;
+        let h: Vec<String> = (0..len).map(|_| {
+            let k = rng.below(n as u64 + 3) as usize;
+            match rng.below(6) { 0 | 1 => format!("s{}={}", k, rng.below(2)), 2 => format!("u{}", k), 3 => format!("i{}=-", k), 4 => format!("i{}={}", k, rng.below(2)), _ => format!("u{}", (n + rng.below(3) as usize).saturating_sub(1)) }
+        }).collect();
+        run("C08.hvals", &[h.join("."), n.to_string()], out);
     }
     // --- exhaustive small universes
     for n in 0..=3usize {
